@@ -139,6 +139,11 @@ Definition spec_array_elem (E : cenv) (ds : list tdesc) : option tkind :=
   match ds with [] => None | a :: r => match spec_elems E a r with Some t => concrete t | None => None end end.
 Definition unbound (E : cenv) (G : string -> option (tkind * decl_kind)) (n : string) : Prop := G n = None /\ ctx_get_ref E n = None.
 
+(* a dotted path that names a type: Class, Class.Enum *)
+Inductive TypePath (E : cenv) (G : string -> option (tkind * decl_kind)) : expr -> named -> Prop :=
+| TpIdent x n : G x = None -> ctx_get_ref E x = Some (RfType n) -> TypePath E G (EIdent x) n
+| TpNested o name ty n : TypePath E G o ty -> type_get_ref E ty name = Some (RfType n) -> TypePath E G (EMember o name) n.
+
 Inductive Typed (E : cenv) (G : string -> option (tkind * decl_kind)) : expr -> tdesc -> Prop :=
 | TyInt n : Typed E G (EInt n) DConstInteger
 | TyFloat b : Typed E G (EFloat b) (DConcrete T_DOUBLE)
@@ -158,6 +163,11 @@ Inductive Typed (E : cenv) (G : string -> option (tkind * decl_kind)) : expr -> 
 (* the objects of the document, by id, and the object the binding belongs to *)
 | TyObject x c : G x = None -> assoc x (ce_objects E) = Some c -> Typed E G (EIdent x) (DConcrete (TPointer (NClass c)))
 | TyThis c n : ce_this E = Some (c, n) -> Typed E G EThis (DConcrete (TPointer (NClass c)))
+(* a bare name that is a readable property of the object the binding belongs to (not hidden by a variable or an object id) *)
+| TyThisProp x tc tn pr d : G x = None -> ctx_get_ref E x = Some (RfObjectProperty tc tn pr) -> pi_readable (pr_info pr) = true ->
+    concrete d = Some (pi_type (pr_info pr)) -> Typed E G (EIdent x) d
+(* Class.Variant, Class.Enum.Variant *)
+| TyEnumVariant o name ty e : TypePath E G o ty -> type_get_ref E ty name = Some (RfEnumVariant e) -> Typed E G (EMember o name) (DConcrete (TJust (NEnum e)))
 (* o.p read as a value: p is a readable property of the class of o (found in the class or an ancestor, see C17) *)
 | TyMember o p dobj ty cls dc pi d : Typed E G o dobj -> concrete dobj = Some ty -> class_of_type ty = Some cls -> get_property E cls p = Some (dc, pi) ->
     pi_readable pi = true -> concrete d = Some (pi_type pi) -> Typed E G (EMember o p) d
@@ -188,15 +198,28 @@ Inductive Typed (E : cenv) (G : string -> option (tkind * decl_kind)) : expr -> 
 
 Definition is_unbound (E : cenv) (env : lenv) (n : string) : bool :=
   match lenv_get env n, ctx_get_ref E n with None, None => true | _, _ => false end.
+Fixpoint type_of_path (E : cenv) (env : lenv) (o : expr) : option named :=
+  match o with
+  | EIdent x => match lenv_get env x with Some _ => None | None => match ctx_get_ref E x with Some (RfType n) => Some n | _ => None end end
+  | EMember o' name => match type_of_path E env o' with
+                       | Some ty => match type_get_ref E ty name with Some (RfType n) => Some n | _ => None end
+                       | None => None end
+  | _ => None
+  end.
 Fixpoint frag (E : cenv) (env : lenv) (e : expr) : bool :=
   match e with
   | EInt _ | EFloat _ | EStr _ | EBool _ | ENull => true
-  | EIdent x => match lenv_get env x with Some _ => true | None => match assoc x (ce_objects E) with Some _ => true | None => false end end
+  | EIdent x => match lenv_get env x with
+                | Some _ => true
+                | None => match ctx_get_ref E x with Some (RfObject _) | Some (RfObjectProperty _ _ _) => true | _ => false end
+                end
   | EThis => true
   | EUnary _ a => frag E env a
   | EBinary _ l r => frag E env l && frag E env r
   | ETernary c a b => frag E env c && frag E env a && frag E env b
-  | EMember o _ => frag E env o
+  | EMember o p => frag E env o || match type_of_path E env o with
+                                    | Some ty => match type_get_ref E ty p with Some (RfEnumVariant _) => true | _ => false end
+                                    | None => false end
   | EAs v _ => frag E env v
   | ESubscript o ix => frag E env o && frag E env ix
   | EArray es => forallb (frag E env) es
@@ -304,6 +327,16 @@ Qed.
 
 (* what a fragment expression is translated to is never a bare namespace or type name *)
 Definition shape_ok (i : inter) : Prop := match i with IBuiltinNamespace _ | IType _ => False | _ => True end.
+Lemma walk_type_path E env : forall o ty, type_of_path E env o = Some ty -> forall s, walk_expr E env o s = (V (IType ty), s).
+Proof.
+  induction o as [x| |n|fb|str|bb| |es| |o IHo p|o IHo ix IHix|f IHf args|l IHl r IHr|op a IHa|op l IHl r IHr|v IHv ty0|c IHc a IHa b IHb];
+    intros ty H st; cbn [type_of_path] in H; try discriminate H; cbn [walk_expr].
+  - unfold process_identifier. destruct (lenv_get env x); [discriminate H|]. destruct (ctx_get_ref E x) as [[n|e|c|c on pp|c on dc ms]|]; try discriminate H.
+    inversion H; subst. reflexivity.
+  - destruct (type_of_path E env o) as [ty1|] eqn:Et; [|discriminate H]. unfold mbind. rewrite (IHo ty1 eq_refl st).
+    unfold process_identifier. destruct (type_get_ref E ty1 p) as [[n|e|c|c on pp|c on dc ms]|]; try discriminate H. inversion H; subst. reflexivity.
+Qed.
+
 Ltac fin H := repeat (first [ discriminate H | (unfold ret in H; inversion H; exact I) | minv H
                             | match type of H with context [match ?x with _ => _ end] => destruct x end ]).
 Lemma frag_shape E env : forall e, frag E env e = true -> forall s i s', walk_expr E env e s = (V i, s') -> shape_ok i.
@@ -311,7 +344,7 @@ Proof.
   induction e as [x| |n|fb|str|bb| |es| |o IHo p|o IHo ix IHix|f IHf args|l IHl r IHr|op a IHa|op l IHl r IHr|v IHv ty|c IHc a IHa b IHb];
     intros Hf s i s' H; cbn [walk_expr] in H.
   - cbn [frag] in Hf. unfold process_identifier in H. destruct (lenv_get env x) as [[l k]|]; [inversion H; exact I|].
-    unfold ctx_get_ref in H. destruct (assoc x (ce_objects E)) as [c|]; [|discriminate Hf]. inversion H; exact I.
+    destruct (ctx_get_ref E x) as [[n|e|c|c on pp|c on dc ms]|]; try discriminate Hf; inversion H; exact I.
   - destruct (ce_this E) as [[c n]|]; inversion H; exact I.
   - minvn H a s1 E1. inversion H; exact I.
   - inversion H; exact I.
@@ -320,7 +353,10 @@ Proof.
   - inversion H; exact I.
   - (* array *) minvn H els s1 E1. minvn H a s2 E2. inversion H; exact I.
   - discriminate Hf.
-  - (* member *) cbn [frag] in Hf. minvn H io s1 E1. pose proof (IHo Hf _ _ _ E1) as Sh.
+  - (* member *) cbn [frag] in Hf. apply orb_prop in Hf. destruct Hf as [Hf|Hf].
+    2:{ destruct (type_of_path E env o) as [ty|] eqn:Et; [|discriminate Hf]. unfold mbind at 1 in H. rewrite (walk_type_path E env o ty Et s) in H.
+        unfold process_identifier in H. destruct (type_get_ref E ty p) as [[n|e|c|c on pp|c on dc ms]|]; try discriminate Hf. inversion H; exact I. }
+    minvn H io s1 E1. pose proof (IHo Hf _ _ _ E1) as Sh.
     assert (Hp : forall it k st, process_item_property E it p k st = (V i, s') -> shape_ok i).
     { intros it k st Hq. unfold process_item_property in Hq. destruct (to_concrete_type (operand_tdesc it)); [|discriminate Hq].
       destruct (class_of_type t); [|discriminate Hq]. destruct (get_property E n p) as [[dc pi]|]; [inversion Hq; exact I|].
@@ -455,9 +491,19 @@ Section Main.
       + unfold mbind, ret in H. cbn [to_rvalue] in H. unfold visit_local_ref in H.
         destruct (nth_error (bs_locals s) l) as [t|] eqn:En; [|discriminate]. inversion H; subst. cbn [operand_tdesc].
         apply (TyLocal E _ x t k). eapply local_ctx; eauto.
-      + unfold ctx_get_ref in H. destruct (assoc x (ce_objects E)) as [c|] eqn:Eo; [|discriminate Hf].
-        unfold of_ref, mbind, ret in H. cbn [to_rvalue] in H. unfold ret in H. inversion H; subst. cbn [operand_tdesc].
-        apply TyObject; [unfold ctx_of; rewrite El; reflexivity|exact Eo].
+      + assert (Gx : ctx_of env s0 x = None) by (unfold ctx_of; rewrite El; reflexivity).
+        destruct (ctx_get_ref E x) as [[n|e|c|tc tn pr|c on dc ms]|] eqn:Er; try discriminate Hf.
+        * (* an object of the document *)
+          assert (Eo : assoc x (ce_objects E) = Some c).
+          { unfold ctx_get_ref in Er. destruct (assoc x (ce_objects E)) as [c'|]; [inversion Er; reflexivity|].
+            destruct (ce_this E) as [[tc tn]|]; [destruct (get_property E tc x) as [[dc pp]|]; [discriminate Er|destruct (get_methods E tc x) as [[dc ms]|]; [discriminate Er|]]|];
+              destruct (type_by_name E x); discriminate Er. }
+          unfold of_ref, mbind, ret in H. cbn [to_rvalue] in H. unfold ret in H. inversion H; subst. cbn [operand_tdesc].
+          apply TyObject; [exact Gx|exact Eo].
+        * (* a property of the object the binding belongs to *)
+          unfold of_ref, mbind in H. unfold ret at 1 in H. cbn [to_rvalue] in H. unfold visit_object_property in H.
+          destruct (pi_readable (pr_info pr)) eqn:Erd; cbn [negb] in H; [|discriminate H].
+          eapply TyThisProp; [exact Gx|exact Er|exact Erd|eapply emit_result_desc; exact H].
     - (* this *)
       split; [|exact I]. intros Hf s res s' HR H. unfold walk_rvalue in H; cbn [walk_expr] in H.
       destruct (ce_this E) as [[c n]|] eqn:Et; [|discriminate H]. unfold mbind, ret in H. cbn [to_rvalue] in H. unfold ret in H. inversion H; subst.
@@ -486,6 +532,20 @@ Section Main.
     - (* function *) split; [|exact I]. intros Hf. discriminate Hf.
     - (* member: o.p *)
       intros o p [IHo _]. split; [|exact IHo]. intros Hf s res s' HR H. cbn [frag] in Hf. unfold walk_rvalue in H.
+      apply orb_prop in Hf. destruct Hf as [Hf|Hf].
+      2:{ (* Class.Variant *)
+          destruct (type_of_path E env o) as [ty|] eqn:Et; [|discriminate Hf]. minvn H i s2 E0. cbn [walk_expr] in E0. unfold mbind at 1 in E0.
+          rewrite (walk_type_path E env o ty Et s) in E0. unfold process_identifier in E0.
+          destruct (type_get_ref E ty p) as [[n|e|c|c on pp|c on dc ms]|] eqn:Eg; try discriminate Hf.
+          unfold of_ref, ret in E0. inversion E0; subst. cbn [to_rvalue] in H. unfold ret in H. inversion H; subst. cbn [operand_tdesc].
+          eapply TyEnumVariant; [|exact Eg]. clear -Et. revert ty Et.
+          induction o as [x| |n|fb|str|bb| |es| |o IHo p|o IHo ix IHix|f IHf args|l IHl r IHr|op a IHa|op l IHl r IHr|v IHv ty0|c IHc a IHa b IHb];
+            intros ty Et; cbn [type_of_path] in Et; try discriminate Et.
+          - destruct (lenv_get env x) eqn:El; [discriminate Et|]. destruct (ctx_get_ref E x) as [[n|e|c|c on pp|c on dc ms]|] eqn:Er; try discriminate Et.
+            inversion Et; subst. apply TpIdent; [unfold ctx_of; rewrite El; reflexivity|exact Er].
+          - destruct (type_of_path E env o) as [ty1|] eqn:Et1; [|discriminate Et].
+            destruct (type_get_ref E ty1 p) as [[n|e|c|c on pp|c on dc ms]|] eqn:Eg; try discriminate Et. inversion Et; subst.
+            eapply TpNested; [apply IHo; reflexivity|exact Eg]. }
       minvn H i s2 E0. pose proof E0 as E0'. cbn [walk_expr] in E0'. minvn E0' io s1 E1. clear E0'.
       pose proof (frag_shape E env o Hf _ _ _ E1) as Sh.
       destruct (member_inv E env o p s i s2 io s1 E1 Sh E0) as (obj & k & st & Eobj & Ep & _).
